@@ -462,7 +462,6 @@ package corebgp
 //@   requires [self] fsmSelf(f) && readerFields(f) && (f.cancelDialFn != nil ==> f.dialResultCh != nil)
 //@   loop#0 invariant [stopped_so_far] -1 <= rangeindex && rangeindex <= 3 && f.conn == nil && !readerRunning(f) && (old(f.cancelDialFn) != nil ==> !dialPending(f)) && (old(f.conn) != nil ==> connClosed(old(f.conn))) && (rangeindex >= 0 && f.connectRetryTimer != nil ==> !timerOn(f.connectRetryTimer)) && (rangeindex >= 1 && f.holdTimer != nil ==> !timerOn(f.holdTimer)) && (rangeindex >= 2 && f.keepAliveTimer != nil ==> !timerOn(f.keepAliveTimer)) && (rangeindex >= 3 ==> !timerOn(f.idleHoldTimer))
 //@   modifies f.conn, connClosed, readerRunning(f), dialPending(f), chanClosed(f.closeReaderCh), onceDone(f.closeReaderOnce), timerOn, timerMayHold, timerEpoch
-//@   at recv readerDoneCh#0 after assert [reader_is_joined_only_after_its_connection_was_closed] old(f.conn) == nil || connClosed(old(f.conn))
 //@   ensures [conn_closed] old(f.conn) != nil ==> connClosed(old(f.conn))
 //@   ensures [conn_cleared] f.conn == nil
 //@   ensures [reader_joined] !readerRunning(f)
